@@ -56,7 +56,27 @@ F10 == {<<10, n, RecurredAt, o, k, g, t>> : n \in 0..1, o \in Ops, k \in 1..2,
 Offset(fam) == CASE fam = 11 -> 2000000 [] fam = 12 -> -2000000 [] fam = 13 -> 2000000000 [] fam = 14 -> -2000000000
 BigFams == 11..14
 FBig == {<<f, n, s, o, k, g, t>> : f \in BigFams, n \in 0..1, s \in (-3)..3, o \in Ops, k \in 1..2, g \in 0..1, t \in {0, 1, 2, -1}}
-Codes == FBig \cup F1 \cup F2 \cup F3 \cup F4 \cup F5 \cup F6 \cup F7 \cup F8 \cup F9 \cup F10
+\* 15: which field of the goal share an indirect goal reads when the script does not spell it out.  The need grammar
+\* (docstring of Builder.makeNeed) is  goal: [(value, field) in] indirect  - the prefix is optional and `value` is the
+\* default field; the resolve rules of NeedIndirect ("default rules for field"): a goal share that has `value` ->
+\* `value`; one that has fields but no `value` -> the state's field; one with NO fields yet -> `value`.  A spelled-out
+\* field is used as written.  <<15, neg, state, op, statefield, goalshape, spelled>>:
+\*   statefield 1 = value (implicit), 2 = an explicit other field;
+\*   goalshape  1 = the goal share has `value` when the need is resolved, 2 = it has the state's field and no `value`,
+\*              3 = it is EMPTY (not initialised; its producer writes it at run time);
+\*   spelled    0 = default, 1 = `value in goal`, 2 = `<state's field> in goal`.
+\* (a goal share that only has other fields is not covered by the documentation and is left out.)
+\* The goal value (1.0) is published at run time into the field the rules name; the clause is true iff the written
+\* comparison holds against THAT value.
+FieldCombos == {<<1, 1, 0>>, <<1, 1, 1>>, <<2, 1, 0>>, <<2, 1, 1>>,       \* goal has value
+                <<2, 2, 0>>, <<2, 2, 2>>,                                   \* goal has the state's field only
+                <<1, 3, 0>>, <<1, 3, 1>>, <<2, 3, 0>>, <<2, 3, 1>>, <<2, 3, 2>>}   \* goal empty at resolve time
+F15 == {<<15, n, s, o, c[1], c[2], c[3]>> : n \in 0..1, s \in {0, 2, 3}, o \in Ops, c \in FieldCombos}
+FieldName(i) == IF i = 1 THEN "value" ELSE "other"
+GoalFieldOf(sf, shape, spelled) ==
+    IF spelled # 0 THEN FieldName(spelled)
+    ELSE CASE shape = 1 -> "value" [] shape = 2 -> FieldName(sf) [] shape = 3 -> "value"
+Codes == F15 \cup FBig \cup F1 \cup F2 \cup F3 \cup F4 \cup F5 \cup F6 \cup F7 \cup F8 \cup F9 \cup F10
 
 Decode(c) ==
     LET fam == c[1]  neg == c[2] = 1  s == c[3]  g == c[6]
@@ -71,6 +91,9 @@ Decode(c) ==
       [] fam = 8 -> Tr(neg, Boo(s = 1))
       [] fam = 9 -> Cl(neg, "elapsed", Num(s), op, gk, Num(g), t)
       [] fam = 10 -> Cl(neg, "recurred", Num(s), op, gk, Num(g), t)
+      [] fam = 15 -> Cl(neg, "share", Num(s), op, "share", Num(2), 0) @@
+                     [sf |-> FieldName(c[5]), gshape |-> c[6], gspell |-> IF c[7] = 0 THEN "" ELSE FieldName(c[7]),
+                      gfield |-> GoalFieldOf(c[5], c[6], c[7])]
       [] fam \in BigFams -> Cl(neg, "share", Num(Offset(fam) + s), op, gk, Num(Offset(fam) + g), t)
 
 ClauseRaw(c) == IF c.k = "truthy" THEN Truthy(c.state) ELSE Check(c.state, c.op, c.goal, c.tol)
@@ -130,7 +153,7 @@ BandClosed == \A g \in Nums, t \in Tols :
     /\ ~Check(Num(g + NAbs(t) + 1), "==", Num(g), t) /\ ~Check(Num(g - NAbs(t) - 1), "==", Num(g), t)
 \* rows of every length occur with both truth values (vacuity)
 BothValues == \A b \in BOOLEAN :
-    /\ \A fam \in 1..14 : \E x \in Codes : x[1] = fam /\ ClauseTruth(Decode(x)) = b
+    /\ \A fam \in 1..15 : \E x \in Codes : x[1] = fam /\ ClauseTruth(Decode(x)) = b
     /\ \E ix \in PairSet : RowTruth(PoolRow(ix)) = b
     /\ \E ix \in TripleSet : RowTruth(PoolRow(ix)) = b
 
